@@ -21,6 +21,11 @@ def run_direct(ctx, n):
     for _ in range(n):
         cases.append({'L': r.randint(2, 300), 'epochs': r.choice([1, 2, 3, 5, 10]), 'target': r.choice([0.3, 1.0, 2.0, 5.0, 10.0]),
                       'delta': r.choice([1e-5, 1e-6, 1e-3]), 'tol': r.choice([0.01, 0.05]), 'acc': r.choice(['rdp', 'rdp', 'gdp', 'prv']), 'by': r.choice(['steps', 'epochs'])})
+    # non-default accountant options passed through the calibration
+    for _ in range(max(3, n // 10)):
+        acc = r.choice(['rdp', 'gdp'])
+        opts = {'alphas': [2, 3, 4, 6, 8, 16, 32, 64]} if acc == 'rdp' else {'poisson': False}
+        cases.append({'L': r.randint(5, 100), 'epochs': r.choice([1, 2, 4]), 'target': r.choice([1.0, 3.0, 8.0]), 'delta': 1e-5, 'tol': 0.01, 'acc': acc, 'by': 'steps', 'opts': opts})
     for c in cases:
         if c['by'] == 'steps' and r.random() < 0.4:
             c['prewarm'] = r.choice([0.5, 1.0])
